@@ -254,6 +254,16 @@ def stale():
     return sorted(k for k in TABLE if k not in d)
 
 
+def exists(e):
+    """False when a catalogued class has been removed from the tree (its tasks are then skipped and counted)."""
+    from .solvers import get_class
+    try:
+        get_class(e["path"])
+        return True
+    except (ImportError, AttributeError):
+        return False
+
+
 def cfgs(e):
     """Configuration variants of an entry: the default first, then the admissible geometries."""
     return [dict()] + [dict(v) for v in e["variants"]]
@@ -286,8 +296,9 @@ def build(e, kw):
                 s = c(eos, ic, **kw)
             else:
                 s = c(eos, {"density": 1, "velocity": -1, "pressure": 0}, **kw)
-            # the shipped example's starting guess (the class default converges to a spurious root, see C06/C16)
-            s.set_new_solver_initial_guess([5.0, 1.0, 1.0])
+            # the shipped example's starting guesses (the class default and, in spherical geometry, [5,1,1] lead Newton to the
+            # non-physical root D = u0, which the solver rejects with ValueError since fix 9627f5f)
+            s.set_new_solver_initial_guess([50.0, 1.0, 0.5] if s.symmetry == 2 else [5.0, 1.0, 1.0])
             return s
         if e["build"] == "guderley":
             from . import guderley_cache
